@@ -176,6 +176,114 @@ pub fn strains_vec_model(rng: &mut Rng, max_len: usize) -> Result<u64, String> {
     Ok(steps + 2)
 }
 
+/// Free-form operation sequences ("all operation sequences on the strain list"): every mutating operation the type
+/// offers, in any order its `unsafe`/debug contracts allow, with a random observer (len, sum, iter, partial iter,
+/// clone + into_vec) after every step, all against the plain `Vec<f64>` model.
+pub fn strains_vec_program(rng: &mut Rng, max_len: usize) -> Result<u64, String> {
+    let mut v = StrainsVec::with_capacity(rng.usize_below(8));
+    let mut m: Vec<f64> = Vec::new();
+    let mut trace: Vec<String> = Vec::new();
+    let mut steps = 0u64;
+    let n_ops = 4 + rng.usize_below(24);
+    let nonzero = |m: &Vec<f64>| m.iter().all(|x| x.to_bits() != 0);
+    for _ in 0..n_ops {
+        match rng.below(10) {
+            0..=4 => {
+                let k = 1 + rng.usize_below(max_len.clamp(1, 12));
+                for _ in 0..k {
+                    let x = match rng.below(10) {
+                        0 | 1 => 0.0,
+                        2 => -0.0,
+                        3 => -2.5,
+                        4 => f64::MIN_POSITIVE,
+                        5 => f64::MIN_POSITIVE / 4.0,
+                        _ => rng.frange(0.0, 50.0),
+                    };
+                    v.push(x);
+                    m.push(model_value(x));
+                }
+                trace.push(format!("push x{k}"));
+            }
+            5 => {
+                v.retain_non_zero();
+                m.retain(|x| x.to_bits() != 0);
+                trace.push("retain_non_zero".into());
+            }
+            6 => {
+                v.retain_non_zero_and_sort();
+                m.retain(|x| x.to_bits() != 0);
+                m.sort_by(|a, b| b.total_cmp(a));
+                trace.push("retain_non_zero_and_sort".into());
+            }
+            7 => {
+                if nonzero(&m) {
+                    v.sort_desc();
+                    m.sort_by(|a, b| b.total_cmp(a));
+                    trace.push("sort_desc".into());
+                }
+            }
+            _ => {
+                // write through the mutable iterator (first k values, positive factor: values stay positive)
+                m.retain(|x| x.to_bits() != 0);
+                m.sort_by(|a, b| b.total_cmp(a));
+                let k = rng.usize_below(m.len() + 2);
+                let f = *rng.pick(&[0.75, 0.5, 1.25, 2.0, 0.9]);
+                let it = v.sorted_non_zero_iter_mut();
+                if it.len() != m.len() {
+                    return Err(format!("sorted_non_zero_iter_mut().len() = {}, model {} after {trace:?}", it.len(), m.len()));
+                }
+                for x in it.take(k) {
+                    *x *= f;
+                }
+                for x in m.iter_mut().take(k) {
+                    *x *= f;
+                }
+                trace.push(format!("iter_mut.take({k}) *= {f}"));
+                if !nonzero(&m) {
+                    // a subnormal was scaled to zero: outside the type's contract, stop here
+                    return Ok(steps);
+                }
+            }
+        }
+        steps += 1;
+        // observer
+        let what = rng.below(5);
+        let ok = match what {
+            0 => v.len() == m.len(),
+            1 => {
+                let s = v.sum();
+                let ms: f64 = m.iter().copied().filter(|x| x.to_bits() != 0).sum::<f64>();
+                s.to_bits() == ms.to_bits() || (s == 0.0 && ms == 0.0)
+            }
+            2 => bits(&v.iter().collect::<Vec<f64>>()) == bits(&m),
+            3 => {
+                let mut it = v.iter();
+                let k = rng.usize_below(m.len() + 1);
+                for _ in 0..k {
+                    it.next();
+                }
+                it.len() == m.len() - k
+            }
+            _ => bits(&v.clone().into_vec()) == bits(&m),
+        };
+        if !ok {
+            let name = ["len", "sum", "iter", "iter-len", "into_vec"][what as usize];
+            return Err(format!("{name} differs from the plain list after {trace:?}: list has {:?}, model {m:?}, sum()={:?}", v.iter().collect::<Vec<f64>>(), v.sum()));
+        }
+    }
+    // terminal conversion
+    let t = if nonzero(&m) && rng.chance(0.5) {
+        // SAFETY: the model says there is no zero left (documented contract)
+        unsafe { v.transmute_into_vec() }
+    } else {
+        v.into_vec()
+    };
+    if bits(&t) != bits(&m) {
+        return Err(format!("final conversion differs after {trace:?}: {t:?} vs {m:?}"));
+    }
+    Ok(steps + 1)
+}
+
 fn tiny_map(rng: &mut Rng) -> (String, Option<Beatmap>) {
     let p = *rng.pick(&[Profile::Tiny, Profile::NonHitFirst, Profile::Editor, Profile::Holds, Profile::Spinners]);
     let f = osu::generate(
@@ -371,6 +479,22 @@ pub fn case(ctx: &mut Ctx, idx: u64) {
             Ok(Err(msg)) => {
                 let clause = msg.split(['(', ' ', '=']).next().unwrap_or("model").to_string();
                 ctx.violation(&format!("C11/strainsvec-model/{clause}"), &msg, None);
+            }
+            Err(p) => ctx.violation(&format!("C11/strainsvec-panic/{}", p.sig()), &format!("{} at {}", p.msg, p.loc), None),
+        }
+    }
+
+    for _ in 0..n_prog {
+        let mut r2 = rng.fork();
+        let r = guard(|| bracket("strains_vec", || strains_vec_program(&mut r2, max_len)));
+        match r {
+            Ok(Ok(steps)) => {
+                ctx.evals(steps);
+                ctx.count("strainsvec_free_programs");
+            }
+            Ok(Err(msg)) => {
+                let clause = msg.split([' ', '(']).next().unwrap_or("model").to_string();
+                ctx.violation(&format!("C11/strainsvec-program/{clause}"), &msg, None);
             }
             Err(p) => ctx.violation(&format!("C11/strainsvec-panic/{}", p.sig()), &format!("{} at {}", p.msg, p.loc), None),
         }
